@@ -1070,6 +1070,27 @@ func (m *Machine) extMethod(e *Ext, name string, args []Value) Value {
 			}
 			return int64(1)
 		case "Mode", "Type":
+			if xk, has := e.F["xkind"]; has && xk != nil {
+				// a file the command left behind, of a kind chosen by the harness / solver (Lstat view)
+				modes := []uint64{0644, 1<<27 | 0777, 1<<25 | 0644, 1<<24 | 0755}
+				if name == "Type" {
+					modes = []uint64{0, 1 << 27, 1 << 25, 1 << 24}
+				}
+				switch k := xk.(type) {
+				case int64:
+					if k >= 0 && int(k) < len(modes) {
+						return int64(modes[k])
+					}
+					return int64(modes[0])
+				case *sym.Term:
+					c := m.C
+					r := c.BV(32, modes[0])
+					for i := 1; i < len(modes); i++ {
+						r = c.Ite(c.Eq(k, c.BV(k.Width, uint64(i))), c.BV(32, modes[i]), r)
+					}
+					return r
+				}
+			}
 			if b, _ := e.F["isdir"].(bool); b {
 				return int64(1<<31 | 0755)
 			}
